@@ -6,6 +6,7 @@
   Spec: `Spec.construct` (Spec/NonVerbose.lean), a consumer of the remaining payload.
 -/
 import DltVerif.Lemmas.NonVerbose
+import DltVerif.Lemmas.CodecNum
 
 namespace Dlt
 
@@ -75,5 +76,10 @@ example : Spec.construct .big
                             hasTraceInfo := false },
               name := none, unit := none, fixedPoint := none, value := .u16 0x0102#16 }] := by
   decide
+
+/-- "in a stated byte order": the number the Spec reads from a field (`Endian.value`, shared
+    with the model's vocabulary) is the positional value of its bytes - most significant byte
+    first for big endian, last for little endian (`Spec.num` of Spec/Codec.lean, a digit sum) -/
+theorem C13_numbers (e : Endian) (bs : Bytes) : e.value bs = Spec.num e bs := (num_eq e bs).symm
 
 end Dlt
